@@ -196,8 +196,13 @@ def errkind(err):
     if err is None:
         return None
     if isinstance(err, TimeoutError):
-        # (bubus' own timeout errors say so; any other TimeoutError is one a handler raised by itself)
-        return 'timeout' if 'timed out after' in str(err) else 'TimeoutError-raised-by-handler'
+        # a TimeoutError that escaped a handler's own body (recorded by the handler wrapper, compared by identity) is the
+        # handler's; otherwise bubus' own timeout errors say so - and so does any TimeoutError that carries a message the
+        # harness did not write (the wording of the library's message is not part of any property)
+        if any(err is x for x in RT.orig_err.values()):
+            return 'TimeoutError-raised-by-handler'
+        st = str(err)
+        return 'timeout' if ('timed out after' in st or (st and 'an operation inside the handler timed out' not in st)) else 'TimeoutError-raised-by-handler'
     if isinstance(err, asyncio.CancelledError):
         # bubus' own cancellation errors carry a message; a bare CancelledError is one a handler let escape by itself
         return 'cancelled' if str(err) else 'CancelledError-raised-by-handler'
